@@ -2,6 +2,7 @@
 Require Import SquidV.Bytes SquidV.TokModel SquidV.QuoteModel.
 Require Import SquidV.gen.ByteMaps_gen.
 Require Import ZifyBool ZifyN ZifyNat.
+Ltac Zify.zify_post_hook ::= Z.div_mod_to_equations.
 Local Open Scope N_scope.
 
 (* ---------- generic: sweeping a predicate with a universally quantified tail over all bytes ---------- *)
@@ -88,3 +89,645 @@ Qed.
 
 Corollary html_unquote_quote_nul_free s : bytes_ok s -> nul_free s -> html_unquote (html_quote s) = Some s.
 Proof. intros Hb Hn. rewrite html_unquote_quote by exact Hb. now rewrite cstr_nul_free. Qed.
+
+(* ---------- C32: the quoted form is made of non-markup bytes and entity references ---------- *)
+Definition ref_char (c : N) : bool := negb (is_html_meta c) && negb (c =? 59).
+
+(* an item of the quoted form: one byte that is not a markup metacharacter, or
+   '&' name ';' where name is a known reference and contains neither ';' nor a metacharacter *)
+Definition html_item (it : bytes) : Prop :=
+  (exists c, it = [c] /\ is_html_meta c = false) \/
+  (exists name v, it = 38 :: name ++ [59] /\ ref_value name = Some v /\ forallb ref_char name = true).
+
+Definition html_item_b (it : bytes) : bool :=
+  match it with
+  | [] => false
+  | c :: rest =>
+    match rest with
+    | [] => negb (is_html_meta c)
+    | _ => (c =? 38) &&
+           match rev rest with
+           | [] => false
+           | z :: rname => (z =? 59) && forallb ref_char (rev rname) &&
+                           match ref_value (rev rname) with Some _ => true | None => false end
+           end
+    end
+  end.
+
+Lemma html_item_b_sound it : html_item_b it = true -> html_item it.
+Proof.
+  unfold html_item_b. destruct it as [|c rest]; [discriminate|].
+  destruct rest as [|d rest'].
+  - intros H. left. exists c. split; [reflexivity|]. now destruct (is_html_meta c).
+  - intros H. apply andb_prop in H. destruct H as [Hc H]. apply N.eqb_eq in Hc. subst c.
+    destruct (rev (d :: rest')) as [|z rname] eqn:E; [discriminate|].
+    apply andb_prop in H. destruct H as [H Hv]. apply andb_prop in H. destruct H as [Hz Hn].
+    apply N.eqb_eq in Hz. subst z.
+    destruct (ref_value (rev rname)) as [v|] eqn:Ev; [|discriminate].
+    right. exists (rev rname), v. repeat split; try assumption.
+    f_equal. rewrite <- (rev_involutive (d :: rest')), E. reflexivity.
+Qed.
+
+Definition html_entry_item_ok (c : N) : bool := (c =? 0) || html_item_b (tbl_entry bm_html_quote c).
+Lemma html_entries_items c : c < 256 -> html_entry_item_ok c = true.
+Proof. apply forallb_bytes. vm_compute. reflexivity. Qed.
+
+Theorem html_quote_items s : bytes_ok s ->
+  exists items, html_quote s = concat items /\ Forall html_item items.
+Proof.
+  intros Hb. exists (map (tbl_entry bm_html_quote) (cstr s)). split; [reflexivity|].
+  pose proof (cstr_bytes_ok s Hb) as Hb'. pose proof (cstr_is_nul_free s) as Hn.
+  induction (cstr s) as [|c l IH]; cbn [map]; [constructor|].
+  inversion Hb' as [|? ? Hc Hl]; inversion Hn as [|? ? Hc0 Hl0]; subst.
+  constructor; [|apply IH; assumption].
+  apply html_item_b_sound. pose proof (html_entries_items c Hc) as H. unfold html_entry_item_ok in H.
+  destruct (c =? 0) eqn:E; [apply N.eqb_eq in E; contradiction|exact H].
+Qed.
+
+(* direct form: no less-than, greater-than or quote character occurs at all *)
+Definition is_quote_meta (c : N) : bool := (c =? 60) || (c =? 62) || (c =? 34) || (c =? 39).
+
+Lemma forallb_map_bytes (p : N -> bool) t s : bytes_ok s ->
+  (forall c, c < 256 -> forallb p (tbl_entry t c) = true) -> forallb p (map_bytes t s) = true.
+Proof.
+  intros Hb H. induction Hb as [|c s Hc Hs IH]; [reflexivity|].
+  rewrite map_bytes_cons, forallb_app, (H c Hc), IH. reflexivity.
+Qed.
+
+Theorem html_quote_no_angle_or_quote s : bytes_ok s ->
+  forallb (fun c => negb (is_quote_meta c)) (html_quote s) = true.
+Proof.
+  intros Hb. apply forallb_map_bytes; [apply cstr_bytes_ok, Hb|].
+  apply (forallb_bytes (fun c => forallb (fun x => negb (is_quote_meta x)) (tbl_entry bm_html_quote c))).
+  vm_compute. reflexivity.
+Qed.
+
+(* ====================================================================== *)
+(* C31: percent-encoding                                                   *)
+
+Definition res_of (o : option bytes) : dres := match o with Some x => DOk x | None => DBad end.
+
+Lemma takeN_1 {A} (h : A) r : takeN 1 (h :: r) = [h].
+Proof. destruct r; reflexivity. Qed.
+Lemma dropN_1 {A} (h : A) r : dropN 1 (h :: r) = r.
+Proof. destruct r; reflexivity. Qed.
+
+(* Tokenizer::int64(v, 16, false, 1) reads exactly one hex digit *)
+Definition int64_hex1_spec (h : N) : option (Z * N) :=
+  match hexval h with Some v => Some (Z.of_N v, 1) | None => None end.
+Definition opt_zn_eqb (a b : option (Z * N)) : bool :=
+  match a, b with
+  | Some (x, n), Some (y, m) => Z.eqb x y && (n =? m)
+  | None, None => true
+  | _, _ => false
+  end.
+Lemma opt_zn_eqb_eq a b : opt_zn_eqb a b = true -> a = b.
+Proof.
+  destruct a as [[x n]|], b as [[y m]|]; cbn; try discriminate; [|reflexivity].
+  intros H. apply andb_prop in H. destruct H as [H1 H2].
+  apply Z.eqb_eq in H1. apply N.eqb_eq in H2. now subst.
+Qed.
+
+Lemma tok_int64_hex1_single h : h < 256 -> tok_int64 16 false 1 [h] = int64_hex1_spec h.
+Proof.
+  intros Hh. apply opt_zn_eqb_eq.
+  apply (forallb_bytes (fun h => opt_zn_eqb (tok_int64 16 false 1 [h]) (int64_hex1_spec h))); [|exact Hh].
+  vm_compute. reflexivity.
+Qed.
+
+Lemma tok_int64_hex1 h r : h < 256 -> tok_int64 16 false 1 (h :: r) = int64_hex1_spec h.
+Proof.
+  intros Hh. rewrite <- (tok_int64_hex1_single h Hh).
+  unfold tok_int64, int64_front. rewrite takeN_1. reflexivity.
+Qed.
+
+Lemma tok_int64_nil : tok_int64 16 false 1 [] = None.
+Proof. reflexivity. Qed.
+
+Lemma hexval_lt16 h v : hexval h = Some v -> v < 16.
+Proof.
+  unfold hexval. intros H.
+  destruct ((48 <=? h) && (h <=? 57)) eqn:E1; [injection H as <-; lia|].
+  destruct ((65 <=? h) && (h <=? 70)) eqn:E2; [injection H as <-; lia|].
+  destruct ((97 <=? h) && (h <=? 102)) eqn:E3; [injection H as <-; lia|discriminate].
+Qed.
+
+Lemma shift_or_byte a b : a < 16 -> b < 16 ->
+  Z.to_N ((Z.lor (Z.shiftl (Z.of_N a) 4) (Z.of_N b)) mod 256) = 16 * a + b.
+Proof.
+  intros Ha Hb.
+  assert (Hc : 16 * a + b < 256) by lia.
+  pose proof (forallb_bytes (fun c => Z.to_N ((Z.lor (Z.shiftl (Z.of_N (c / 16)) 4) (Z.of_N (c mod 16))) mod 256) =? c)
+                ltac:(vm_compute; reflexivity) (16 * a + b) Hc) as H.
+  apply N.eqb_eq in H.
+  assert (E1 : (16 * a + b) / 16 = a) by lia.
+  assert (E2 : (16 * a + b) mod 16 = b) by lia.
+  rewrite E1, E2 in H. exact H.
+Qed.
+
+Lemma pct_decode_plain tok rest : forallb not_percent tok = true ->
+  pct_decode (tok ++ rest) = option_map (app tok) (pct_decode rest).
+Proof.
+  induction tok as [|c tok IH]; intros H.
+  - cbn. destruct (pct_decode rest); reflexivity.
+  - cbn [forallb] in H. apply andb_prop in H. destruct H as [Hc Ht].
+    cbn [app pct_decode]. unfold not_percent in Hc. destruct (c =? 37); [discriminate|].
+    rewrite (IH Ht). destruct (pct_decode rest); reflexivity.
+Qed.
+
+Lemma span_length {A} (p : A -> bool) l : (length (snd (span p l)) <= length l)%nat.
+Proof.
+  induction l as [|x l IH]; cbn [span]; [cbn; lia|].
+  destruct (p x); [|cbn; lia]. destruct (span p l) as [a b]. cbn in *. lia.
+Qed.
+
+Lemma bytes_ok_app a b : bytes_ok (a ++ b) -> bytes_ok a /\ bytes_ok b.
+Proof. unfold bytes_ok. rewrite Forall_app. tauto. Qed.
+
+(* AnyP::Uri::Decode computes RFC 3986 percent-decoding (and never runs out of fuel) *)
+Lemma uri_decode_loop_spec : forall fuel buf, bytes_ok buf -> (length buf < fuel)%nat ->
+  uri_decode_loop fuel buf = res_of (pct_decode buf).
+Proof.
+  induction fuel as [|f IH]; intros buf Hb Hlen; [lia|].
+  cbn [uri_decode_loop]. destruct buf as [|c0 buf0]; [reflexivity|].
+  remember (c0 :: buf0) as buf eqn:Ebuf.
+  pose proof (span_app not_percent buf) as Happ.
+  pose proof (span_all not_percent buf) as Hall.
+  pose proof (span_stop not_percent buf) as Hstop.
+  pose proof (span_length not_percent buf) as Hsl.
+  destruct (span not_percent buf) as [tok rest]. cbn [fst snd] in *.
+  assert (Hlb : (length buf = length tok + length rest)%nat) by (rewrite <- Happ, app_length; reflexivity).
+  assert (Hne : (length buf > 0)%nat) by (subst buf; cbn; lia).
+  rewrite <- Happ in Hb. apply bytes_ok_app in Hb. destruct Hb as [Hbt Hbr].
+  rewrite <- Happ. rewrite (pct_decode_plain tok rest Hall).
+  destruct rest as [|p r].
+  - (* the run reached the end *)
+    rewrite IH; [|apply Forall_nil|cbn [length]; lia]. cbn. rewrite app_nil_r. reflexivity.
+  - unfold not_percent in Hstop. destruct (p =? 37) eqn:Ep; [|discriminate].
+    apply N.eqb_eq in Ep. subst p.
+    cbn [pct_decode]. change (37 =? 37) with true. cbv iota.
+    inversion Hbr as [|? ? _ Hr]; subst.
+    destruct r as [|h1 r1]; [reflexivity|].
+    inversion Hr as [|? ? Hh1 Hr1]; subst.
+    rewrite (tok_int64_hex1 h1 r1 Hh1). unfold int64_hex1_spec.
+    destruct (hexval h1) as [a|] eqn:Ea; [|destruct r1 as [|? ?]; reflexivity].
+    rewrite dropN_1.
+    destruct r1 as [|h2 r2]; [reflexivity|].
+    inversion Hr1 as [|? ? Hh2 Hr2]; subst.
+    rewrite (tok_int64_hex1 h2 r2 Hh2). unfold int64_hex1_spec.
+    destruct (hexval h2) as [b|] eqn:Eb; [|reflexivity].
+    rewrite dropN_1.
+    rewrite (shift_or_byte a b (hexval_lt16 _ _ Ea) (hexval_lt16 _ _ Eb)).
+    rewrite IH; [|exact Hr2|cbn [length] in *; lia].
+    destruct (pct_decode r2); reflexivity.
+Qed.
+
+Theorem uri_decode_spec buf : bytes_ok buf -> uri_decode buf = res_of (pct_decode buf).
+Proof. intros Hb. apply uri_decode_loop_spec; [exact Hb|lia]. Qed.
+
+(* ---------- shapes of the entries of a percent-encoding table ---------- *)
+(* alphabet: a byte of the ignore set left alone, or '%' followed by two hex digits *)
+Definition pct_item_alpha (ignore : cset) (e : bytes) : bool :=
+  match e with
+  | [x] => ignore x
+  | [p; h; l] => (p =? 37) && is_hex h && is_hex l
+  | _ => false
+  end.
+(* round trip: the byte itself (not '%'), or the triplet whose value is the byte *)
+Definition pct_item_rt (c : N) (e : bytes) : bool :=
+  match e with
+  | [x] => (x =? c) && negb (x =? 37)
+  | [p; h; l] => (p =? 37) &&
+                 match hexval h, hexval l with Some a, Some b => 16 * a + b =? c | _, _ => false end
+  | _ => false
+  end.
+
+Definition pct_item (ignore : cset) (it : bytes) : Prop :=
+  (exists x, it = [x] /\ ignore x = true) \/
+  (exists h l, it = [37; h; l] /\ is_hex h = true /\ is_hex l = true).
+
+Lemma pct_item_alpha_sound ignore e : pct_item_alpha ignore e = true -> pct_item ignore e.
+Proof.
+  unfold pct_item_alpha. destruct e as [|x [|h [|l [|? ?]]]]; try discriminate.
+  - intros H. left. now exists x.
+  - intros H. apply andb_prop in H. destruct H as [H Hl]. apply andb_prop in H. destruct H as [Hp Hh].
+    apply N.eqb_eq in Hp. subst x. right. now exists h, l.
+Qed.
+
+Lemma pct_decode_item c e r : pct_item_rt c e = true ->
+  pct_decode (e ++ r) = option_map (cons c) (pct_decode r).
+Proof.
+  unfold pct_item_rt. destruct e as [|x [|h [|l [|? ?]]]]; try discriminate.
+  - intros H. apply andb_prop in H. destruct H as [Hx Hp]. apply N.eqb_eq in Hx. subst x.
+    cbn [app pct_decode]. destruct (c =? 37); [discriminate|reflexivity].
+  - intros H. apply andb_prop in H. destruct H as [Hp H]. apply N.eqb_eq in Hp. subst x.
+    cbn [app pct_decode]. change (37 =? 37) with true. cbv iota.
+    destruct (hexval h) as [a|]; [|discriminate]. destruct (hexval l) as [b|]; [|discriminate].
+    apply N.eqb_eq in H. now rewrite H.
+Qed.
+
+(* any table whose 256 entries pass the round-trip shape check decodes back *)
+Lemma pct_decode_map_bytes t : (forall c, c < 256 -> pct_item_rt c (tbl_entry t c) = true) ->
+  forall s, bytes_ok s -> pct_decode (map_bytes t s) = Some s.
+Proof.
+  intros Ht s Hb. induction Hb as [|c s Hc Hs IH]; [reflexivity|].
+  rewrite map_bytes_cons, (pct_decode_item c _ _ (Ht c Hc)), IH. reflexivity.
+Qed.
+
+Lemma map_bytes_ok t : (forall c, c < 256 -> forallb (fun x => x <? 256) (tbl_entry t c) = true) ->
+  forall s, bytes_ok s -> bytes_ok (map_bytes t s).
+Proof.
+  intros Ht s Hb. apply Forall_forall. intros x Hx.
+  pose proof (forallb_map_bytes (fun x => x <? 256) t s Hb Ht) as H.
+  rewrite forallb_forall in H. specialize (H x Hx). lia.
+Qed.
+
+Lemma uri_roundtrip_tbl t :
+  (forall c, c < 256 -> pct_item_rt c (tbl_entry t c) = true) ->
+  (forall c, c < 256 -> forallb (fun x => x <? 256) (tbl_entry t c) = true) ->
+  forall s, bytes_ok s -> uri_decode (map_bytes t s) = DOk s.
+Proof.
+  intros Hrt Hok s Hb. rewrite uri_decode_spec by (apply map_bytes_ok; assumption).
+  now rewrite (pct_decode_map_bytes t Hrt s Hb).
+Qed.
+
+Lemma items_tbl ignore t :
+  (forall c, c < 256 -> pct_item_alpha ignore (tbl_entry t c) = true) ->
+  forall s, bytes_ok s -> exists items, map_bytes t s = concat items /\ Forall (pct_item ignore) items.
+Proof.
+  intros Ht s Hb. exists (map (tbl_entry t) s). split; [reflexivity|].
+  induction Hb as [|c s Hc Hs IH]; cbn [map]; constructor; [|exact IH].
+  apply pct_item_alpha_sound, Ht, Hc.
+Qed.
+
+(* --- the three encoders used in the tree, against today's tables --- *)
+Lemma userinfo_rt c : c < 256 -> pct_item_rt c (tbl_entry bm_uri_userinfo c) = true.
+Proof. apply (forallb_bytes (fun c => pct_item_rt c (tbl_entry bm_uri_userinfo c))). vm_compute. reflexivity. Qed.
+Lemma unreserved_rt c : c < 256 -> pct_item_rt c (tbl_entry bm_uri_unreserved c) = true.
+Proof. apply (forallb_bytes (fun c => pct_item_rt c (tbl_entry bm_uri_unreserved c))). vm_compute. reflexivity. Qed.
+Lemma userinfo_bytes c : c < 256 -> forallb (fun x => x <? 256) (tbl_entry bm_uri_userinfo c) = true.
+Proof. apply (forallb_bytes (fun c => forallb (fun x => x <? 256) (tbl_entry bm_uri_userinfo c))). vm_compute. reflexivity. Qed.
+Lemma unreserved_bytes c : c < 256 -> forallb (fun x => x <? 256) (tbl_entry bm_uri_unreserved c) = true.
+Proof. apply (forallb_bytes (fun c => forallb (fun x => x <? 256) (tbl_entry bm_uri_unreserved c))). vm_compute. reflexivity. Qed.
+Lemma path_bytes c : c < 256 -> forallb (fun x => x <? 256) (tbl_entry bm_uri_path c) = true.
+Proof. apply (forallb_bytes (fun c => forallb (fun x => x <? 256) (tbl_entry bm_uri_path c))). vm_compute. reflexivity. Qed.
+
+Theorem uri_decode_encode_userinfo s : bytes_ok s -> uri_decode (uri_encode_userinfo s) = DOk s.
+Proof. apply uri_roundtrip_tbl; [exact userinfo_rt|exact userinfo_bytes]. Qed.
+Theorem uri_decode_encode_unreserved s : bytes_ok s -> uri_decode (uri_encode_unreserved s) = DOk s.
+Proof. apply uri_roundtrip_tbl; [exact unreserved_rt|exact unreserved_bytes]. Qed.
+
+(* the path encoder leaves '%' alone (it is in PathChars): the round trip fails exactly there *)
+Definition path_rt_except_percent (c : N) : bool := (c =? 37) || pct_item_rt c (tbl_entry bm_uri_path c).
+Lemma path_rt c : c < 256 -> c <> 37 -> pct_item_rt c (tbl_entry bm_uri_path c) = true.
+Proof.
+  intros Hc H37. pose proof (forallb_bytes path_rt_except_percent ltac:(vm_compute; reflexivity) c Hc) as H.
+  unfold path_rt_except_percent in H. destruct (c =? 37) eqn:E; [apply N.eqb_eq in E; contradiction|exact H].
+Qed.
+
+Definition percent_free (s : bytes) : Prop := Forall (fun c => c <> 37) s.
+
+Theorem uri_decode_encode_path_partial s : bytes_ok s -> percent_free s ->
+  uri_decode (uri_encode_path s) = DOk s.
+Proof.
+  intros Hb Hp. unfold uri_encode_path.
+  rewrite uri_decode_spec by (apply map_bytes_ok; [exact path_bytes|exact Hb]).
+  assert (H : pct_decode (map_bytes bm_uri_path s) = Some s).
+  { induction Hb as [|c s Hc Hs IH]; [reflexivity|]. inversion Hp as [|? ? Hc37 Hp']; subst.
+    rewrite map_bytes_cons, (pct_decode_item c _ _ (path_rt c Hc Hc37)), (IH Hp'). reflexivity. }
+  now rewrite H.
+Qed.
+
+Theorem uri_decode_encode_path_refuted :
+  exists s, bytes_ok s /\ uri_decode (uri_encode_path s) <> DOk s.
+Proof. exists [37; 52; 49]. split; [repeat constructor|]. vm_compute. discriminate. Qed.
+
+Theorem uri_decode_encode_path_refuted_undecodable :
+  exists s, bytes_ok s /\ uri_decode (uri_encode_path s) = DBad.
+Proof. exists [37]. split; [repeat constructor|]. vm_compute. reflexivity. Qed.
+
+Theorem uri_encode_alphabet_userinfo s : bytes_ok s ->
+  exists items, uri_encode_userinfo s = concat items /\ Forall (pct_item (mem_tbl bm_uri_userinfo_set)) items.
+Proof.
+  apply items_tbl.
+  apply (forallb_bytes (fun c => pct_item_alpha (mem_tbl bm_uri_userinfo_set) (tbl_entry bm_uri_userinfo c))).
+  vm_compute. reflexivity.
+Qed.
+Theorem uri_encode_alphabet_path s : bytes_ok s ->
+  exists items, uri_encode_path s = concat items /\ Forall (pct_item (mem_tbl bm_uri_path_set)) items.
+Proof.
+  apply items_tbl.
+  apply (forallb_bytes (fun c => pct_item_alpha (mem_tbl bm_uri_path_set) (tbl_entry bm_uri_path c))).
+  vm_compute. reflexivity.
+Qed.
+Theorem uri_encode_alphabet_unreserved s : bytes_ok s ->
+  exists items, uri_encode_unreserved s = concat items /\ Forall (pct_item (mem_tbl bm_uri_unreserved_set)) items.
+Proof.
+  apply items_tbl.
+  apply (forallb_bytes (fun c => pct_item_alpha (mem_tbl bm_uri_unreserved_set) (tbl_entry bm_uri_unreserved c))).
+  vm_compute. reflexivity.
+Qed.
+
+(* the sets read off the encoders are the ones RFC 3986 / the source name:
+   unreserved = ALPHA DIGIT - . _ ~ ; userinfo adds sub-delims and ':' ; path adds '/' '@' and '%' *)
+Definition in_range (lo hi c : N) : bool := (lo <=? c) && (c <=? hi).
+Definition rfc3986_unreserved (c : N) : bool :=
+  in_range 65 90 c || in_range 97 122 c || in_range 48 57 c || existsb (N.eqb c) [45; 46; 95; 126].
+Definition rfc3986_sub_delims (c : N) : bool := existsb (N.eqb c) [33; 36; 38; 39; 40; 41; 42; 43; 44; 59; 61].
+Definition sets_check (c : N) : bool :=
+  Bool.eqb (mem_tbl bm_uri_unreserved_set c) (rfc3986_unreserved c) &&
+  Bool.eqb (mem_tbl bm_uri_userinfo_set c) (rfc3986_unreserved c || rfc3986_sub_delims c || (c =? 58)) &&
+  Bool.eqb (mem_tbl bm_uri_path_set c)
+           (rfc3986_unreserved c || rfc3986_sub_delims c || (c =? 58) || (c =? 64) || (c =? 47) || (c =? 37)).
+Theorem uri_ignore_sets c : c < 256 ->
+  mem_tbl bm_uri_unreserved_set c = rfc3986_unreserved c /\
+  mem_tbl bm_uri_userinfo_set c = (rfc3986_unreserved c || rfc3986_sub_delims c || (c =? 58)) /\
+  mem_tbl bm_uri_path_set c =
+    (rfc3986_unreserved c || rfc3986_sub_delims c || (c =? 58) || (c =? 64) || (c =? 47) || (c =? 37)).
+Proof.
+  intros Hc. pose proof (forallb_bytes sets_check ltac:(vm_compute; reflexivity) c Hc) as H.
+  unfold sets_check in H. apply andb_prop in H. destruct H as [H H3]. apply andb_prop in H. destruct H as [H1 H2].
+  apply Bool.eqb_prop in H1, H2, H3. repeat split; assumption.
+Qed.
+
+(* --- AnyP::Uri::Encode with an arbitrary ignore set (hand-written model) --- *)
+Definition triplet_check (c : N) : bool :=
+  pct_item_rt c (pct_triplet c) && is_hex (hex_upper (c / 16)) && is_hex (hex_upper (c mod 16)) &&
+  forallb (fun x => x <? 256) (pct_triplet c).
+Lemma triplet_ok c : c < 256 -> triplet_check c = true.
+Proof. apply forallb_bytes. vm_compute. reflexivity. Qed.
+
+Lemma triplet_parts c : c < 256 ->
+  pct_item_rt c (pct_triplet c) = true /\ is_hex (hex_upper (c / 16)) = true /\
+  is_hex (hex_upper (c mod 16)) = true /\ forallb (fun x => x <? 256) (pct_triplet c) = true.
+Proof.
+  intros Hc. pose proof (triplet_ok c Hc) as H. unfold triplet_check in H.
+  apply andb_prop in H. destruct H as [H H4]. apply andb_prop in H. destruct H as [H H3].
+  apply andb_prop in H. destruct H as [H1 H2]. repeat split; assumption.
+Qed.
+
+Lemma pct_entry_rt ignore c : c < 256 -> ignore 37 = false -> pct_item_rt c (pct_entry ignore c) = true.
+Proof.
+  intros Hc H37. unfold pct_entry. destruct (ignore c) eqn:E.
+  - cbn [pct_item_rt]. rewrite N.eqb_refl. destruct (c =? 37) eqn:E37; [|reflexivity].
+    apply N.eqb_eq in E37. subst c. congruence.
+  - apply (triplet_parts c Hc).
+Qed.
+
+Lemma pct_entry_bytes ignore c : c < 256 -> forallb (fun x => x <? 256) (pct_entry ignore c) = true.
+Proof.
+  intros Hc. unfold pct_entry. destruct (ignore c).
+  - cbn. destruct (c <? 256) eqn:E; [reflexivity|lia].
+  - apply (triplet_parts c Hc).
+Qed.
+
+Theorem uri_decode_encode_set ignore s : ignore 37 = false -> bytes_ok s ->
+  uri_decode (uri_encode_set ignore s) = DOk s.
+Proof.
+  intros H37 Hb. unfold uri_encode_set.
+  assert (Hok : bytes_ok (concat (map (pct_entry ignore) s))).
+  { induction Hb as [|c s Hc Hs IH]; [constructor|]. cbn [map concat]. apply Forall_app. split; [|exact IH].
+    pose proof (pct_entry_bytes ignore c Hc) as H. rewrite forallb_forall in H.
+    apply Forall_forall. intros x Hx. specialize (H x Hx). lia. }
+  rewrite uri_decode_spec by exact Hok.
+  assert (H : pct_decode (concat (map (pct_entry ignore) s)) = Some s).
+  { clear Hok. induction Hb as [|c s Hc Hs IH]; [reflexivity|]. cbn [map concat].
+    rewrite (pct_decode_item c _ _ (pct_entry_rt ignore c Hc H37)), IH. reflexivity. }
+  now rewrite H.
+Qed.
+
+Theorem uri_encode_set_alphabet ignore s : bytes_ok s ->
+  exists items, uri_encode_set ignore s = concat items /\ Forall (pct_item ignore) items.
+Proof.
+  intros Hb. exists (map (pct_entry ignore) s). split; [reflexivity|].
+  induction Hb as [|c s Hc Hs IH]; cbn [map]; constructor; [|exact IH].
+  unfold pct_entry. destruct (ignore c) eqn:E.
+  - left. now exists c.
+  - right. exists (hex_upper (c / 16)), (hex_upper (c mod 16)). split; [reflexivity|].
+    destruct (triplet_parts c Hc) as (_ & H2 & H3 & _). split; assumption.
+Qed.
+
+(* the regenerated tables are exactly that encoder applied with the regenerated sets *)
+Lemma list_eqb_eq a : forall b, list_eqb a b = true -> a = b.
+Proof.
+  induction a as [|x a IH]; intros [|y b] H; cbn in H; try discriminate; [reflexivity|].
+  apply andb_prop in H. destruct H as [H1 H2]. apply N.eqb_eq in H1. subst. f_equal. apply IH, H2.
+Qed.
+Definition tables_check (c : N) : bool :=
+  list_eqb (tbl_entry bm_uri_userinfo c) (pct_entry (mem_tbl bm_uri_userinfo_set) c) &&
+  list_eqb (tbl_entry bm_uri_path c) (pct_entry (mem_tbl bm_uri_path_set) c) &&
+  list_eqb (tbl_entry bm_uri_unreserved c) (pct_entry (mem_tbl bm_uri_unreserved_set) c).
+Theorem uri_tables_are_pct_entry c : c < 256 ->
+  tbl_entry bm_uri_userinfo c = pct_entry (mem_tbl bm_uri_userinfo_set) c /\
+  tbl_entry bm_uri_path c = pct_entry (mem_tbl bm_uri_path_set) c /\
+  tbl_entry bm_uri_unreserved c = pct_entry (mem_tbl bm_uri_unreserved_set) c.
+Proof.
+  intros Hc. pose proof (forallb_bytes tables_check ltac:(vm_compute; reflexivity) c Hc) as H.
+  unfold tables_check in H. apply andb_prop in H. destruct H as [H H3]. apply andb_prop in H. destruct H as [H1 H2].
+  repeat split; apply list_eqb_eq; assumption.
+Qed.
+
+(* ====================================================================== *)
+(* C31: rfc1738_do_escape / rfc1738_unescape                               *)
+
+(* entry shape for the round trip: the byte itself (not '%'), or %HL with value = the byte, 1..255 *)
+Definition esc_item_rt (c : N) (e : bytes) : bool :=
+  match e with
+  | [x] => (x =? c) && negb (x =? 37)
+  | [p; h; l] => (p =? 37) &&
+                 match hexval h, hexval l with
+                 | Some a, Some b => (a * 16 + b =? c) && (0 <? c) && (c <=? 255)
+                 | _, _ => false
+                 end
+  | _ => false
+  end.
+
+Lemma hexval_not_percent h a : hexval h = Some a -> (h =? 37) = false.
+Proof. intros H. destruct (h =? 37) eqn:E; [|reflexivity]. apply N.eqb_eq in E. subst h. discriminate. Qed.
+
+Lemma unesc_list_item c e r : esc_item_rt c e = true -> unesc_list (e ++ r) = c :: unesc_list r.
+Proof.
+  unfold esc_item_rt. destruct e as [|x [|h [|l [|? ?]]]]; try discriminate.
+  - intros H. apply andb_prop in H. destruct H as [Hx Hp]. apply N.eqb_eq in Hx. subst x.
+    cbn [app unesc_list]. rewrite Hp. reflexivity.
+  - intros H. apply andb_prop in H. destruct H as [Hp H]. apply N.eqb_eq in Hp. subst x.
+    destruct (hexval h) as [a|] eqn:Ea; [|discriminate]. destruct (hexval l) as [b|] eqn:Eb; [|discriminate].
+    apply andb_prop in H. destruct H as [H H255]. apply andb_prop in H. destruct H as [Hv H0].
+    apply N.eqb_eq in Hv.
+    cbn [app unesc_list]. change (negb (37 =? 37)) with false. cbv iota.
+    rewrite (hexval_not_percent h a Ea). unfold fromhex. rewrite Ea, Eb. cbv zeta.
+    rewrite Hv, H0, H255. reflexivity.
+Qed.
+
+Lemma unesc_list_map_bytes t s : bytes_ok s -> nul_free s ->
+  (forall c, c < 256 -> c <> 0 -> In c s -> esc_item_rt c (tbl_entry t c) = true) ->
+  unesc_list (map_bytes t s) = s.
+Proof.
+  intros Hb Hn Ht. induction s as [|c s IH]; [reflexivity|].
+  inversion Hb as [|? ? Hc Hb']; inversion Hn as [|? ? Hc0 Hn']; subst.
+  rewrite map_bytes_cons, (unesc_list_item c _ _ (Ht c Hc Hc0 (or_introl eq_refl))).
+  rewrite IH; [reflexivity|assumption|assumption|]. intros c' ? ? Hin. apply Ht; [assumption|assumption|now right].
+Qed.
+
+(* does this flag set make rfc1738_do_escape escape '%' itself?  UNSAFE without NOPERCENT *)
+Definition escapes_percent (flags : N) : bool :=
+  negb (N.land flags bm_RFC1738_ESCAPE_UNSAFE =? 0) && (N.land flags bm_RFC1738_ESCAPE_NOPERCENT =? 0).
+
+Definition esc_tbl_rt (t : list bytes) : bool :=
+  forallb (fun c => (c =? 0) || esc_item_rt c (tbl_entry t c)) all_bytes.
+Definition esc_tbl_rt_nopct (t : list bytes) : bool :=
+  forallb (fun c => (c =? 0) || (c =? 37) || esc_item_rt c (tbl_entry t c)) all_bytes.
+
+Definition all_flag_tables_check : bool :=
+  forallb (fun ft => (if escapes_percent (fst ft) then esc_tbl_rt (snd ft) else true) && esc_tbl_rt_nopct (snd ft))
+          bm_rfc1738_all.
+Lemma all_flag_tables_ok : all_flag_tables_check = true.
+Proof. vm_compute. reflexivity. Qed.
+
+Lemma assoc_tbl_in l k t : assoc_tbl l k = Some t -> In (k, t) l.
+Proof.
+  induction l as [|[k' t'] l IH]; cbn [assoc_tbl]; [discriminate|].
+  destruct (k =? k') eqn:E; [|intros H; right; apply IH, H].
+  apply N.eqb_eq in E. subst k'. intros H. injection H as <-. now left.
+Qed.
+
+Lemma flag_table_rt flags t : rfc1738_tbl flags = Some t -> escapes_percent flags = true ->
+  forall c, c < 256 -> c <> 0 -> esc_item_rt c (tbl_entry t c) = true.
+Proof.
+  intros Ht He c Hc H0. apply assoc_tbl_in in Ht.
+  pose proof all_flag_tables_ok as H. unfold all_flag_tables_check in H. rewrite forallb_forall in H.
+  specialize (H _ Ht). cbn [fst snd] in H. rewrite He in H. apply andb_prop in H. destruct H as [H _].
+  pose proof (forallb_bytes _ H c Hc) as Hx. cbv beta in Hx.
+  destruct (c =? 0) eqn:E; [apply N.eqb_eq in E; contradiction|exact Hx].
+Qed.
+
+Lemma flag_table_rt_nopct flags t : rfc1738_tbl flags = Some t ->
+  forall c, c < 256 -> c <> 0 -> c <> 37 -> esc_item_rt c (tbl_entry t c) = true.
+Proof.
+  intros Ht c Hc H0 H37. apply assoc_tbl_in in Ht.
+  pose proof all_flag_tables_ok as H. unfold all_flag_tables_check in H. rewrite forallb_forall in H.
+  specialize (H _ Ht). cbn [fst snd] in H. apply andb_prop in H. destruct H as [_ H].
+  pose proof (forallb_bytes _ H c Hc) as Hx. cbv beta in Hx.
+  destruct (c =? 0) eqn:E; [apply N.eqb_eq in E; contradiction|].
+  destruct (c =? 37) eqn:E2; [apply N.eqb_eq in E2; contradiction|exact Hx].
+Qed.
+
+(* ---------- the in-place loop computes unesc_list and stays inside the C string ---------- *)
+Lemma nthN_app_skip {A} (a b : list A) k : nthN (lenN a + k) (a ++ b) = nthN k b.
+Proof.
+  induction a as [|x a IH]; cbn [lenN app nthN]; [now rewrite N.add_0_l|].
+  destruct (N.succ (lenN a) + k =? 0) eqn:E; [lia|].
+  replace (N.pred (N.succ (lenN a) + k)) with (lenN a + k) by lia. exact IH.
+Qed.
+
+Lemma setN_app_at {A} (a : list A) x v Y : setN (lenN a) v (a ++ x :: Y) = Some (a ++ v :: Y).
+Proof.
+  induction a as [|y a IH]; cbn [lenN app setN]; [reflexivity|].
+  destruct (N.succ (lenN a) =? 0) eqn:E; [lia|].
+  replace (N.pred (N.succ (lenN a))) with (lenN a) by lia. rewrite IH. reflexivity.
+Qed.
+
+(* s[i] = c where c was just read at j >= i: the written prefix grows by c, the gap keeps its length *)
+Lemma write_step (w g : bytes) (c : N) (X : bytes) : exists G : bytes,
+  setN (lenN w) c (w ++ g ++ c :: X) = Some ((w ++ [c]) ++ G ++ X) /\ lenN G = lenN g.
+Proof.
+  destruct g as [|x g'].
+  - exists []. cbn [app]. rewrite setN_app_at, <- app_assoc. split; reflexivity.
+  - exists (g' ++ [c]). cbn [app]. rewrite setN_app_at. split.
+    + f_equal. rewrite <- !app_assoc. reflexivity.
+    + rewrite lenN_app. cbn [lenN]. lia.
+Qed.
+
+Lemma read_at (w g X : bytes) k i : i = lenN w + lenN g + k -> nthN i (w ++ g ++ X) = nthN k X.
+Proof. intros ->. rewrite <- N.add_assoc, nthN_app_skip, nthN_app_skip. reflexivity. Qed.
+
+Lemma hexval_zero : hexval 0 = None. Proof. reflexivity. Qed.
+
+Lemma unesc_loop_spec : forall fuel r, nul_free r -> (length r < fuel)%nat ->
+  forall w g rest i j, i = lenN w -> j = lenN w + lenN g ->
+  exists junk,
+    unesc_loop fuel (w ++ g ++ r ++ 0 :: rest) i j =
+      UOk (w ++ unesc_list r ++ 0 :: junk ++ rest) (lenN w + lenN (unesc_list r)) /\
+    lenN (unesc_list r) + lenN junk = lenN g + lenN r.
+Proof.
+  induction fuel as [|f IH]; intros r Hn Hlen w g rest i j Hi Hj; [lia|].
+  cbn [unesc_loop].
+  rewrite (read_at w g (r ++ 0 :: rest) 0 j) by lia.
+  destruct r as [|c r'].
+  - (* terminator reached: s[i] = 0 *)
+    cbn [app nthN]. change (0 =? 0) with true. cbv iota. subst i.
+    destruct g as [|x g'].
+    + exists []. cbn [app]. rewrite setN_app_at. cbn [unesc_list lenN app]. split; [f_equal; lia|lia].
+    + exists (g' ++ [0]). cbn [app]. rewrite setN_app_at. cbn [unesc_list lenN app]. split.
+      * f_equal; [|lia]. f_equal. f_equal. rewrite <- app_assoc. reflexivity.
+      * rewrite lenN_app. cbn [lenN]. lia.
+  - inversion Hn as [|? ? Hc0 Hn']; subst c0 l.
+    cbn [app nthN]. change (0 =? 0) with true. cbv iota.
+    destruct (c =? 0) eqn:Ec0; [apply N.eqb_eq in Ec0; contradiction|].
+    destruct (write_step w g c (r' ++ 0 :: rest)) as [G [HG HlG]].
+    subst i. rewrite HG.
+    assert (Hw1 : lenN (w ++ [c]) = lenN w + 1) by (rewrite lenN_app; cbn [lenN]; lia).
+    cbn [length] in Hlen.
+    (* common continuation: `continue` with the whole rest r' *)
+    assert (Hcont : exists junk,
+              unesc_loop f ((w ++ [c]) ++ G ++ r' ++ 0 :: rest) (lenN w + 1) (j + 1) =
+                UOk (w ++ c :: unesc_list r' ++ 0 :: junk ++ rest) (lenN w + lenN (c :: unesc_list r')) /\
+              lenN (c :: unesc_list r') + lenN junk = lenN g + lenN (c :: r')).
+    { destruct (IH r' Hn' ltac:(lia) (w ++ [c]) G rest (lenN w + 1) (j + 1) ltac:(lia) ltac:(lia)) as [junk [H1 H2]].
+      exists junk. rewrite H1. split; [|cbn [lenN]; lia].
+      f_equal; [rewrite <- app_assoc; reflexivity|cbn [lenN]; lia]. }
+    destruct (negb (c =? 37)) eqn:E37.
+    + (* ordinary byte *)
+      cbn [unesc_list]. rewrite E37. exact Hcont.
+    + apply Bool.negb_false_iff, N.eqb_eq in E37. subst c.
+      rewrite (read_at (w ++ [37]) G (r' ++ 0 :: rest) 0 (j + 1)) by lia.
+      destruct r' as [|c1 r1].
+      * (* '%' then NUL *)
+        cbn [app nthN]. change (0 =? 0) with true. cbv iota. change (0 =? 37) with false. cbv iota.
+        unfold fromhex at 1. rewrite hexval_zero.
+        cbn [unesc_list] in *. change (negb (37 =? 37)) with false in *. cbv iota in *. exact Hcont.
+      * inversion Hn' as [|? ? Hc10 Hn1]; subst c0 l.
+        cbn [app nthN]. change (0 =? 0) with true. cbv iota.
+        cbn [unesc_list]. change (negb (37 =? 37)) with false. cbv iota.
+        cbn [unesc_list] in Hcont. change (negb (37 =? 37)) with false in Hcont. cbv iota in Hcont.
+        destruct (c1 =? 37) eqn:Ec1.
+        -- (* %% *)
+           apply N.eqb_eq in Ec1. subst c1. cbn [length] in Hlen.
+           destruct (IH r1 Hn1 ltac:(lia) (w ++ [37]) (G ++ [37]) rest (lenN w + 1) (j + 2)
+                        ltac:(lia) ltac:(rewrite lenN_app; cbn [lenN]; lia)) as [junk [H1 H2]].
+           exists junk. rewrite <- !app_assoc in H1. cbn [app] in H1. rewrite <- !app_assoc. cbn [app].
+           rewrite H1. split; [f_equal; cbn [lenN]; lia|].
+           rewrite lenN_app in H2. cbn [lenN] in *. lia.
+        -- destruct (fromhex c1) as [v1|] eqn:Ev1; [|exact Hcont].
+           rewrite (read_at (w ++ [37]) G (c1 :: r1 ++ 0 :: rest) 1 (j + 2)) by lia.
+           cbn [nthN]. change (1 =? 0) with false. cbv iota. change (N.pred 1) with 0.
+           destruct r1 as [|c2 r2].
+           ++ cbn [app nthN]. change (0 =? 0) with true. cbv iota.
+              unfold fromhex at 1. rewrite hexval_zero. exact Hcont.
+           ++ inversion Hn1 as [|? ? Hc20 Hn2]; subst c0 l.
+              cbn [app nthN]. change (0 =? 0) with true. cbv iota.
+              destruct (fromhex c2) as [v2|] eqn:Ev2; [|exact Hcont].
+              cbv zeta.
+              destruct ((0 <? v1 * 16 + v2) && (v1 * 16 + v2 <=? 255)) eqn:Ex; [|exact Hcont].
+              (* decoded: s[i] = x, j += 2 *)
+              rewrite <- (app_assoc w [37]). cbn [app]. rewrite setN_app_at.
+              cbn [length] in Hlen.
+              destruct (IH r2 Hn2 ltac:(lia) (w ++ [v1 * 16 + v2]) (G ++ [c1; c2]) rest (lenN w + 1) (j + 3)
+                           ltac:(rewrite lenN_app; cbn [lenN]; lia)
+                           ltac:(rewrite !lenN_app; cbn [lenN]; lia)) as [junk [H1 H2]].
+              exists junk. rewrite <- !app_assoc in H1. cbn [app] in H1. rewrite H1.
+              split; [f_equal; [rewrite <- app_assoc; reflexivity|rewrite lenN_app; cbn [lenN]; lia]|].
+              rewrite lenN_app in H2. cbn [lenN] in *. lia.
+Qed.
+
+(* the call on a buffer holding the NUL-free string r, its terminator, and anything after it *)
+Theorem rfc1738_unescape_spec r rest : nul_free r ->
+  exists junk,
+    rfc1738_unescape (r ++ 0 :: rest) = UOk (unesc_list r ++ 0 :: junk ++ rest) (lenN (unesc_list r)) /\
+    lenN (unesc_list r) + lenN junk = lenN r.
+Proof.
+  intros Hn. unfold rfc1738_unescape.
+  destruct (unesc_loop_spec (S (length (r ++ 0 :: rest))) r Hn
+              ltac:(rewrite app_length; cbn [length]; lia) [] [] rest 0 0 eq_refl eq_refl) as [junk [H1 H2]].
+  exists junk. cbn [app lenN] in *. rewrite H1. split; [f_equal|]; lia.
+Qed.
